@@ -20,7 +20,35 @@ CREATED_BASE = 1_000_000.0  # ms
 
 
 @st.composite
+def ladder_case(draw) -> Dict[str, Any]:
+    """A legal message with very many distinct compression targets in the middle of names: one or two names of 60-84 short labels,
+    then a question (or a PTR record whose target is) each of their parent domains - every one compresses to a bare pointer into
+    the middle of the long name."""
+    n_lab = draw(st.integers(60, 84))
+    longs = []
+    for c in draw(st.sampled_from(['a', 'ab'])):
+        labels = [c + '%d' % (i % 10) for i in range(n_lab)]
+        longs.append('.'.join(labels) + '.local.')
+    longs = [gen.clamp_name(x) for x in longs]
+    suffixes = []
+    for nm in longs:
+        ls = nm[:-1].split('.')
+        suffixes += ['.'.join(ls[k:]) + '.' for k in range(1, len(ls) - 1)]
+    response = draw(st.booleans())
+    case: Dict[str, Any] = {'response': response, 'aa': False, 'multicast': draw(st.booleans()), 'id': 0, 'names': longs, 'via_incoming': False,
+                            'q': [], 'an': [], 'ns': [], 'ar': [], 'bulk': None}
+    if response:
+        case['an'] = [{'k': 'PTR', 'name': longs[i % len(longs)], 'cls': 1, 'flush': False, 'ttl': 120, 'target': sfx, 'age': 'zero'}
+                      for i, sfx in enumerate([longs[0]] + suffixes)]
+    else:
+        case['q'] = [{'name': nm, 'type': 12, 'cls': 1, 'qu': False} for nm in longs + suffixes]
+    return case
+
+
+@st.composite
 def message_case(draw, size_directed_share: int = 3, max_small: int = 12) -> Dict[str, Any]:
+    if draw(st.integers(0, 39)) == 0:
+        return draw(ladder_case())
     names = draw(gen.name_pool(root=True))
     response = draw(st.booleans())
     case: Dict[str, Any] = {
